@@ -316,12 +316,17 @@ func runWire(c WireCase) (info WireInfo, v *vstat.Violation) {
 		// a waiter polls a record that is about to expire; shortly before the expiry the record is prolonged by an hour
 		// (CasByVersion, or Put for odd LeadMs). The key exists without interruption, so the waiter must end with nil
 		// (the version changed) - never with ErrNotExist.
+		tSync := time.Now()
 		w.sync()
 		e1 := time.Now().Add(ms(c.OldExpMs))
 		r0, err := raw.Put(ctx, kvs.Record{Key: wireKey, Value: []byte("old"), ExpiresAt: &e1})
 		if err != nil {
 			return info, vstat.V("wire:setup", "Put: %v", err)
 		}
+		// the server counts the TTL (e1 minus the moment the library read the clock, cut to whole milliseconds) from the
+		// reading its clock had at the last catch-up: in real time the record lapses EARLIER than e1 by the time that passed
+		// between that catch-up and the library's clock reading - microseconds on an idle machine, milliseconds on a loaded one
+		slack := time.Since(tSync) + 2*time.Millisecond
 		w.mu.Lock()
 		w.armed, w.n, w.t0 = true, 0, time.Now()
 		w.mu.Unlock()
@@ -361,7 +366,7 @@ func runWire(c WireCase) (info WireInfo, v *vstat.Violation) {
 		w.armed = false
 		info.Commands = w.n
 		w.mu.Unlock()
-		if perr != nil || !prolongedAt.Before(e1) {
+		if perr != nil || !prolongedAt.Before(e1.Add(-slack)) {
 			if os.Getenv("WIRE_DEBUG") != "" {
 				fmt.Fprintf(os.Stderr, "waitprolong not judged: perr=%v prolonged %v before expiry, waiter=%v\n", perr, e1.Sub(prolongedAt), werr)
 			}
